@@ -14,6 +14,8 @@ mod c11;
 mod c12;
 mod c13;
 mod c14;
+mod c15;
+mod c16;
 mod c17;
 mod c19;
 mod gen;
@@ -184,6 +186,8 @@ fn main() {
         "C12" => c12::run(&ctx),
         "C13" => c13::run(&ctx),
         "C14" => c14::run(&ctx),
+        "C15" => c15::run(&ctx),
+        "C16" => c16::run(&ctx),
         "C17" => c17::run(&ctx),
         "C19" => c19::run(&ctx),
         _ => {
